@@ -94,6 +94,10 @@ pub fn check_witness(ctx: &Context, sys: &TransitionSystem, w: &Value) -> Result
             for (s2, v) in sys.states.iter().zip(st0.iter()).take(k) {
                 env.insert(s2.symbol, v.clone());
             }
+            // an init expression may read the inputs of step 0
+            for (i, v) in sys.inputs.iter().zip(inputs[0].iter()) {
+                env.insert(*i, v.clone());
+            }
             let expect = pvcore::evalref::eval_ref(ctx, init_e, &env);
             if expect != st0[k] {
                 return err(
